@@ -45,6 +45,21 @@ def import_repo():
     return cryptoparser
 
 
+def ename(e):
+    """Name of an exception as used in signatures and messages.  A subclass of one of the documented parse errors is
+    named after the documented class it specialises: refining the error hierarchy does not change what is reported
+    (and a listed finding keeps matching)."""
+    try:
+        from cryptodatahub.common.exception import InvalidValue
+        from cryptoparser.common.exception import InvalidDataLength, InvalidType, NotEnoughData, TooMuchData
+        for base in (NotEnoughData, TooMuchData, InvalidDataLength, InvalidValue, InvalidType):
+            if isinstance(e, base):
+                return base.__name__
+    except Exception:  # noqa
+        pass
+    return type(e).__name__
+
+
 def jsonable(x, depth=0):
     if depth > 8:
         return repr(x)[:200]
